@@ -229,6 +229,21 @@ def placements(ctx, prog, pair_seed, npairs_quick=25, npairs_thorough=120, kinds
     return out + pairs
 
 
+def with_nested_operation(progs):
+    """Programs that (one time in three) call another decorated operation of the same recorder somewhere."""
+    from hypothesis import strategies as st
+
+    @st.composite
+    def wrapped(draw):
+        p = draw(progs)
+        if draw(st.sampled_from([False, False, True])):
+            p['steps'].insert(draw(st.integers(0, len(p['steps']))),
+                              {'t': 'nested_op', 'inner': draw(st.sampled_from(['ret', 'ret', 'raise']))})
+            PS.assign_sids(p)
+        return p
+    return wrapped()
+
+
 def base_programs(max_steps=5):
     from hypothesis import strategies as st
     progs = PS.programs(values=V.small_values, max_steps=max_steps, threads=False,
